@@ -40,7 +40,9 @@ SS == 1024      \* fixed point of the star-finder rows
 InR(x, lo, hi) == lo <= x /\ x <= hi
 StarClause(c) ==
   LET n == Len(c.rows) IN
-  IF c.none THEN (IF n = 0 THEN "ok" ELSE "none_iff_nothing_qualifies")
+  \* peakmax keeps EXACTLY the sources of the run without it whose reported peak is <= peakmax (counts of the two runs without `brightest`)
+  IF "pm_got" \in DOMAIN c /\ c.pm_expected # c.pm_got THEN "peakmax_keeps_exactly_the_sources_at_or_below_it"
+  ELSE IF c.none THEN (IF n = 0 THEN "ok" ELSE "none_iff_nothing_qualifies")
   ELSE IF n = 0 THEN "none_iff_nothing_qualifies"
   ELSE IF \E k \in 1..n : c.rows[k].id # k THEN "ids_are_1_to_n"
   ELSE IF \E k \in 1..n : ~c.rows[k].finite THEN "values_finite"
